@@ -9,7 +9,7 @@ def c03_jobs(tier):
     main = 'hier,synthetic,rebuild,rebuild_refused'
     return [job('galerkin-plain-t1', 'c03', 'plain', threads=1, shards=8 if q else 14, args=['--sub', main + ',degenerate'], timeout=3600 if q else 7200),
             # 17 threads: product() switches to the row-merge SpGEMM; clang/libomp build (never g++ above 16 threads)
-            job('galerkin-omp-t17', 'c03', 'plain-omp', threads=17, exclusive=True, args=['--sub', main + ',degenerate', '--stride=4' if q else '--stride=10'], timeout=3600 if q else 7200),
+            job('galerkin-omp-t17', 'c03', 'plain-omp', threads=17, exclusive=True, env={'KMP_BLOCKTIME': '0'}, args=['--sub', main + ',degenerate', '--probe_all_below=0', '--stride=4' if q else '--stride=10'], timeout=3600 if q else 7200),
             job('galerkin-asan-t1', 'c03', 'asan', threads=1, shards=4, args=['--sub', main, '--stride=3' if q else '--stride=8'], timeout=3600 if q else 7200),
             # degenerate inputs separately under ASan: a crash there must not cut the main ASan workload short
             job('degenerate-asan-t1', 'c03', 'asan', threads=1, shards=2, args=['--sub', 'degenerate'], timeout=3600),
